@@ -1,9 +1,11 @@
 package c02
 
 import (
+	"bytes"
 	"context"
 	"encoding/json"
 	"fmt"
+	"math/big"
 	"testing"
 
 	"github.com/iotaledger/hive.go/serializer/v2/serix"
@@ -50,11 +52,32 @@ type awkFuncField struct {
 	C chan int `serix:""`
 }
 
+// a recursive type: the nesting depth of a value is chosen by the input
+type awkNode struct {
+	Children []*awkNode `serix:",lenPrefix=uint8"`
+}
+
+// an interface-typed map key with one implementation that cannot be hashed; the input's type code picks it
+type awkKey interface{ awkKey() }
+type awkKeyPlain struct {
+	V uint8 `serix:""`
+}
+type awkKeySlice struct {
+	L []byte `serix:",lenPrefix=uint8"`
+}
+
+func (awkKeyPlain) awkKey() {}
+func (awkKeySlice) awkKey() {}
+
+type awkIfaceKeyMap struct {
+	M map[awkKey]uint8 `serix:",lenPrefix=uint8"`
+}
+
 var _ = awkNoFields{}.hidden
 
 func TestAwkwardTargets(t *testing.T) {
 	const check = "serix_awkward_targets"
-	stats.Rule(check, "fixed target types that the generated shapes cannot contain (nil embedded pointer to an unexported struct, embedded pointer to an exported struct, struct without serix fields, field of an unregistered interface type, pointer to pointer, func/chan fields) x drawn input (0..40 random bytes for Decode; a small JSON object with the fields' keys and junk values for JSONDecode/MapDecode) x validation off/on. Oracle: the call returns (value or error), no panic. Distinct by (type, input); non-trivial = every case")
+	stats.Rule(check, "fixed target types that the generated shapes cannot contain (nil embedded pointer to an unexported struct, embedded pointer to an exported struct, struct without serix fields, field of an unregistered interface type, pointer to pointer, func/chan fields, a recursive node type fed chains of up to 2 million nesting levels, a map with an interface key one of whose implementations is unhashable, a *big.Int as the destination itself) x drawn input (0..40 random bytes for Decode; a small JSON object with the fields' keys and junk values for JSONDecode/MapDecode) x validation off/on. Oracle: the call returns (value or error), no panic. Distinct by (type, input); non-trivial = every case")
 	targets := []struct {
 		name string
 		mk   func() any
@@ -65,11 +88,33 @@ func TestAwkwardTargets(t *testing.T) {
 		{"unregistered_interface_field", func() any { return &awkUnregisteredIface{} }},
 		{"pointer_to_pointer", func() any { return &awkPtrPtr{} }},
 		{"func_and_chan_fields", func() any { return &awkFuncField{} }},
+		{"recursive_node", func() any { return &awkNode{} }},
+		{"interface_key_map", func() any { return &awkIfaceKeyMap{} }},
+		{"big_int_destination", func() any { return new(big.Int) }},
 	}
 	rapid.Check(t, func(rt *rapid.T) {
 		tg := targets[rapid.IntRange(0, len(targets)-1).Draw(rt, "target")]
 		api := serix.NewAPI()
+		_ = api.RegisterTypeSettings(awkKeyPlain{}, serix.TypeSettings{}.WithObjectType(uint8(0)))
+		_ = api.RegisterTypeSettings(awkKeySlice{}, serix.TypeSettings{}.WithObjectType(uint8(1)))
+		_ = api.RegisterInterfaceObjects((*awkKey)(nil), awkKeyPlain{}, awkKeySlice{})
 		raw := rapid.SliceOfN(rapid.Byte(), 0, 40).Draw(rt, "raw")
+		switch tg.name {
+		case "recursive_node":
+			// a chain of n nodes with one child each: one byte per nesting level
+			if rapid.Bool().Draw(rt, "chain") {
+				raw = append(bytes.Repeat([]byte{1}, rapid.SampledFrom([]int{5, 300, 5000, 300000, 2000000}).Draw(rt, "depth")), raw...)
+			}
+		case "interface_key_map":
+			// entry count, then type codes 0/1 at the key positions
+			if rapid.Bool().Draw(rt, "typed") {
+				raw = append([]byte{byte(rapid.IntRange(0, 3).Draw(rt, "entries")), byte(rapid.IntRange(0, 2).Draw(rt, "code"))}, raw...)
+			}
+		case "big_int_destination":
+			if rapid.Bool().Draw(rt, "full") {
+				raw = append(raw, make([]byte, 32)...)
+			}
+		}
 		m := map[string]any{}
 		for _, k := range []string{"y", "z", "awkInner", "awkExported", "plain", "i", "n", "p", "f", "c"} {
 			if rapid.Bool().Draw(rt, "has_"+k) {
@@ -80,7 +125,11 @@ func TestAwkwardTargets(t *testing.T) {
 		if err != nil {
 			rt.Skip("unmarshalable document")
 		}
-		ex := map[string]any{"target": tg.name, "raw": fmt.Sprintf("%x", raw), "document": string(doc)}
+		shown := raw
+		if len(shown) > 64 {
+			shown = shown[:64]
+		}
+		ex := map[string]any{"target": tg.name, "raw_len": len(raw), "raw": fmt.Sprintf("%x", shown), "document": string(doc)}
 		fail := func(format string, a ...any) {
 			ex["problem"] = fmt.Sprintf(format, a...)
 			stats.Violation(check, ex)
@@ -101,6 +150,6 @@ func TestAwkwardTargets(t *testing.T) {
 				fail("MapDecode(validation=%v) panicked: %v", validate, p)
 			}
 		}
-		stats.Case(check, true, tg.name+"|"+fmt.Sprintf("%x", raw)+"|"+string(doc), func() any { return ex }, "target:"+tg.name)
+		stats.Case(check, true, tg.name+"|"+fmt.Sprintf("%d:%x", len(raw), shown)+"|"+string(doc), func() any { return ex }, "target:"+tg.name)
 	})
 }
